@@ -10,6 +10,40 @@ theorem pushNone_never_plain (b : B) (msg : String) : pushNone b ≠ .error (.er
 
 variable {ext : Ext}
 
+/-! ### scalar calls -/
+
+/-- an annotated error of a scalar call: only a dictionary builder produces one, and it is the OWN failure of its key /
+value builder (or, for a nested dictionary, of a builder below) on the `serialize_u64` / `serialize_str` the dictionary
+issued — the plain error of that child's own code, annotated by that child's wrapper -/
+theorem pushScalar_raised (ext : Ext) [ExtPlain ext] : ∀ (b : B) (x : SVal),
+    Raised ext (positions b) (fun c => Sub c x) (pushScalar ext b x)
+  | .dictionary p idx vals index, x => by
+    unfold pushScalar; dsimp only
+    split
+    · rename_i s hs
+      have hk : ∀ i, Raised ext (positions (.dictionary p idx vals index)) (fun c => Sub c x)
+          (SaModel.ctx idx.ann (pushScalar ext idx (.int .u64 i))) := fun i =>
+        Raised.ctx_own idx (.val (.int .u64 i))
+          (by intro q hq; simp only [positions, List.mem_cons, List.mem_append]; exact .inr (.inl hq))
+          (Sub.dictKey ext i (by rw [hs]; rfl) (.self _)) (fun msg h => .body h)
+          (Raised.mono (by intro q hq; simp only [positions, List.mem_cons, List.mem_append]; exact .inr (.inl hq))
+            (fun c hc => Sub.dictKey ext i (by rw [hs]; rfl) hc) (pushScalar_raised ext idx _))
+      have hv : Raised ext (positions (.dictionary p idx vals index)) (fun c => Sub c x)
+          (SaModel.ctx vals.ann (pushScalar ext vals (.str s))) :=
+        Raised.ctx_own vals (.val (.str s))
+          (by intro q hq; simp only [positions, List.mem_cons, List.mem_append]; exact .inr (.inr hq))
+          (Sub.dictValue ext hs (.self _)) (fun msg h => .body h)
+          (Raised.mono (by intro q hq; simp only [positions, List.mem_cons, List.mem_append]; exact .inr (.inr hq))
+            (fun c hc => Sub.dictValue ext hs hc) (pushScalar_raised ext vals _))
+      split
+      · exact Raised.bind (hk _) fun _ _ => Raised.of_ok _
+      · exact Raised.bind hv fun _ _ => Raised.bind (hk _) fun _ _ => Raised.of_ok _
+    · exact NoCtx.raised _
+  | .null _ _, x | .unknownVariant _, x | .leaf _ _ _ _, x | .bytes _ _ _ _ _, x | .bytesView _ _ _ _ _, x
+  | .fixedSizeBinary _ _ _ _ _ _, x | .list _ _ _ _ _ _, x | .fixedSizeList _ _ _ _ _ _ _, x | .map _ _ _ _ _ _, x
+  | .struct _ _ _ _ _ _ _, x | .union _ _ _ _ _, x => by
+    exact @NoCtx.raised _ _ _ _ _ (pushScalar_noctx ext _ x rfl)
+
 /-! ### serialize_default / serialize_none -/
 
 mutual
@@ -201,13 +235,13 @@ theorem seqLikeWith_raised {C : Call → Prop} (hP : ∀ c, Placeholder c → C 
     unfold seqLikeWith; exact NoCtx.raised _
 
 theorem pushByteElems_raised (ext : Ext) [ExtPlain ext] {C : Call → Prop} (large : Bool) : ∀ (bs : Bytes) (el : B) (offs : List Int),
-    (∀ x ∈ bs, C (.val (.int .u8 x.toNat))) → Raised ext (positions el) C (pushByteElems ext large el offs bs)
+    (∀ x ∈ bs, ∀ c, Sub c (.int .u8 x.toNat) → C c) → Raised ext (positions el) C (pushByteElems ext large el offs bs)
   | [], el, offs, _ => by unfold pushByteElems; exact Raised.of_ok _
   | x :: rest, el, offs, hC => by
     unfold pushByteElems
     refine Raised.bind (NoCtx.raised _) fun _ _ =>
-      Raised.bind (Raised.ctx_own el (.val (.int .u8 x.toNat)) subset_refl' (hC x (by simp)) (fun msg h => .body h)
-        (NoCtx.raised _)) fun el' h' => ?_
+      Raised.bind (Raised.ctx_own el (.val (.int .u8 x.toNat)) subset_refl' (hC x (by simp) _ (.self _)) (fun msg h => .body h)
+        (Raised.monoC (hC x (by simp)) (pushScalar_raised ext el _))) fun el' h' => ?_
     have e := positions_of_takeRest (pushScalar_takeRest ext el _ el' ((ctx_ok _ _ _).1 h'))
     exact e ▸ pushByteElems_raised ext large rest el' _ fun y hy => hC y (by simp [hy])
 
